@@ -246,10 +246,12 @@ func ruleC12_3(c *Ctx) {
 	// decoder: raw Value() that parses an integer
 	var dec *ssa.Function
 	for fn := range c.A.RawValue {
-		if callsWhere(fn, func(cc *ssa.CallCommon) bool {
-			return callIsPkgFunc(cc, "strconv", "ParseInt") || callIsPkgFunc(cc, "strconv", "Atoi") || callIsPkgFunc(cc, "strconv", "ParseUint")
-		}) {
-			dec = fn
+		for g := range c.P.StaticTree(fn) { // (the number may be parsed in a helper of the decoder)
+			if callsWhere(g, func(cc *ssa.CallCommon) bool {
+				return callIsPkgFunc(cc, "strconv", "ParseInt") || callIsPkgFunc(cc, "strconv", "Atoi") || callIsPkgFunc(cc, "strconv", "ParseUint")
+			}) {
+				dec = fn
+			}
 		}
 	}
 	if dec == nil {
